@@ -2,6 +2,7 @@ package props
 
 import (
 	"bytes"
+	"errors"
 	"fmt"
 	"sort"
 	"time"
@@ -28,6 +29,7 @@ type c15Op struct {
 	StallUs int64 `json:"stall_us,omitempty"` // downstream stalls before it reads the packet
 	Reuse   bool  `json:"reuse,omitempty"`    // caller reuses its previous header object
 	GapUs   int64 `json:"gap_us,omitempty"`
+	WErr    bool  `json:"werr,omitempty"` // the next writer fails (after it has seen the packet)
 }
 
 type c15 struct{}
@@ -61,6 +63,7 @@ func (c15) Gen(seed int64, tier string, avoid []string) *Plan {
 		cfg.Bulk = 65536 + r.Intn(3000)
 	}
 	stallP := pick(r, 0, 50, 300)
+	errP := pick(r, 0, 0, 30, 150)
 	var ops []c15Op
 	for i := 0; i < n; i++ {
 		o := c15Op{W: r.Intn(nw), HS: r.Int63(), Len: pick(r, 0, 1, 20, 200, 1200, 1460), Reuse: chance(r, 300)}
@@ -73,6 +76,7 @@ func (c15) Gen(seed int64, tier string, avoid []string) *Plan {
 		if chance(r, 200) {
 			o.GapUs = int64(r.Intn(2000))
 		}
+		o.WErr = chance(r, errP)
 		ops = append(ops, o)
 	}
 	p.Cfg = mustJSON(cfg)
@@ -115,6 +119,9 @@ func (c15) Run(e *Env) {
 				hc := h.Clone()
 				rec.got = &hc
 				rec.gotPl = append([]byte{}, pl...)
+				if fail, _ := a.Get("fail").(bool); fail {
+					return 0, errInjected
+				}
 			} else {
 				// bulk mode: O(1) bookkeeping
 				var ext rtp.TransportCCExtension
@@ -157,8 +164,16 @@ func (c15) Run(e *Env) {
 					attr["stall"] = o.StallUs
 					e.Fault("stall_writer")
 				}
+				if o.WErr {
+					attr["fail"] = true
+					e.Fault("writer_err")
+				}
 				n, err := writers[st].Write(h, pl, attr)
-				if err != nil || n != len(pl) {
+				if o.WErr {
+					if !errors.Is(err, errInjected) {
+						e.Violatef("oracle", "c15:write-result", "the next writer failed, Write returned (%d, %v)", n, err)
+					}
+				} else if err != nil || n != len(pl) {
 					e.Violatef("oracle", "c15:write-result", "Write returned (%d, %v) for a %d-byte payload", n, err, len(pl))
 				}
 				prev = h
